@@ -498,6 +498,15 @@ class Interp:
                                              f.frame.def_cls))
         if isinstance(f, Unknown):
             recv = f.meta.get("recv")
+            if isinstance(recv, Unknown) and "template_groups" in recv.meta and f.meta.get("attr") in ("group", "groups") and not kwargs:
+                tg = recv.meta["template_groups"]
+                if f.meta.get("attr") == "groups" and not args:
+                    return TupleV(list(tg[1:]))
+                if f.meta.get("attr") == "group" and len(args) <= 1 and all(isinstance(a, IntV) for a in args):
+                    k = args[0].v if args else 0
+                    if 0 <= k < len(tg):
+                        return tg[k]
+                    self.raise_exc("IndexError", [Str.lit("no such group")], node, fr)
             if isinstance(recv, Unknown) and "concrete_groups" in recv.meta and f.meta.get("attr") == "group" and \
                     len(args) == 1 and isinstance(args[0], IntV) and not kwargs and \
                     0 <= args[0].v < len(recv.meta["concrete_groups"]):
